@@ -171,6 +171,16 @@ def spec_checks(XSpec, x, text, exp):
     y = XSpec(text)
     if not (x == y) or (x != y) or hash(x) != hash(y) or x == XSpec(text + "//zz9"):
         V.append(v("spec-eq-hash", "eq", text))
+    # ... and still does after use: Group.allocate_id / makegateway fill in id and execmodel on the object they were
+    # given, callers attach settings (ssh_config) - the text, and with it equality and hash, stays what it was
+    z = XSpec(text)
+    if z.id is None:
+        z.id = "gw7"
+    if z.execmodel is None:
+        z.execmodel = "thread"
+    z.ssh_config = "/dev/null"
+    if not (z == y) or (z != y) or hash(z) != hash(y) or not (y == z) or str(z) != text:
+        V.append(v("spec-eq-hash", "eq-after-use", text))
     return V
 
 
